@@ -391,6 +391,9 @@ class FileWriter(FileBase):
             # arr should be normalized first
             arr = self.bitsinfo.quantize(arr)
         if self.bitsinfo.unpack:
+            if not (arr.flags.c_contiguous and arr.flags.writeable):
+                # the packing kernels take writable C-contiguous arrays
+                arr = arr.copy()
             packed = pack(arr, self.bitsinfo.nbits, bitorder=self.bitsinfo.bitorder)
             packed.tofile(self.file_obj)
         else:
